@@ -197,12 +197,14 @@ Definition check_retry (c : cfg) (r : req) (s : st) : bool :=
   if negb (s_cok s) then true else
   check_retriable r.
 
-(* FwdState::reforward (ENTRY_ABORTED is excluded as above) *)
-Definition reforward (c : cfg) (s : st) : bool :=
+(* FwdState::reforward (ENTRY_ABORTED is excluded as above). `err && !checkRetriable()`: the attempt that produced
+   this reply has failed after the request was sent, so only retriable requests may be sent again. *)
+Definition reforward (c : cfg) (r : req) (s : st) : bool :=
   if s_pinned s then false else
   if negb (s_hdr_wait s) then false else
   if exhausted c s then false else
   if s_nibbled s then false else
+  if andb (match s_err s with Some _ => true | None => false end) (negb (check_retriable r)) then false else
   if andb (no_paths s) (negb (s_subscribed s)) then false else
   reforwardable c (s_status s).
 
@@ -399,7 +401,7 @@ Definition step (c : cfg) (r : req) (s : st) (e : event) : st * list out :=
         match ph with
         | PhGotHeaders _ =>
             let s1 := if premature then fail s ErrRead else s in      (* markPrematureReplyBodyEofFailure *)
-            if reforward c s1 then
+            if reforward c r s1 then
               (* complete(): unregister, destinationReceipt = nullptr, entry->reset() (the flag stays), useDestinations() *)
               let s2 := set_race_receipt s1 (s_race s1) None in
               let s3 := set_entry s2 true (s_hdr_wait s2) (s_status s2) in
